@@ -65,9 +65,7 @@ func (te *Extractor) Extract(reader io.Reader) error {
 	te.deferredUpdates = make([]deferredUpdate, 0, 80)
 	doUpdates := func() error {
 		for i := len(te.deferredUpdates) - 1; i >= 0; i-- {
-			m := te.deferredUpdates[i]
-			err := files.UpdateMetaUnix(m.path, uint32(m.mode), m.mtime)
-			if err != nil {
+			if err := applyDeferredUpdate(te.deferredUpdates[i]); err != nil {
 				return err
 			}
 		}
@@ -406,6 +404,26 @@ type deferredUpdate struct {
 	mtime time.Time
 }
 
+// applyDeferredUpdate applies the deferred mode and modification time of an
+// extracted directory.
+//
+// Between the extraction of the directory and this call a later entry of the
+// archive with the same name may have replaced the (still empty) directory by
+// a file or a symlink. os.Chmod follows symlinks, so the update would then
+// change an object the link points to, possibly outside of the extraction
+// root. The update only applies to the directory the metadata was recorded
+// for, hence it is skipped when the path is not a directory anymore.
+func applyDeferredUpdate(m deferredUpdate) error {
+	fi, err := os.Lstat(m.path)
+	if err != nil {
+		return err
+	}
+	if !fi.IsDir() {
+		return nil
+	}
+	return files.UpdateMetaUnix(m.path, uint32(m.mode), m.mtime)
+}
+
 func (te *Extractor) deferUpdate(path string, header *tar.Header) error {
 	if header.Mode == 0 && header.ModTime.IsZero() {
 		return nil
@@ -425,8 +443,7 @@ func (te *Extractor) deferUpdate(path string, header *tar.Header) error {
 		// if possible, apply the previous deferral.
 		m := te.deferredUpdates[n-1]
 		if strings.HasPrefix(m.path, prefix()) {
-			err := files.UpdateMetaUnix(m.path, uint32(m.mode), m.mtime)
-			if err != nil {
+			if err := applyDeferredUpdate(m); err != nil {
 				return err
 			}
 			te.deferredUpdates = te.deferredUpdates[:n-1]
